@@ -132,7 +132,7 @@ class ValidateRtu:
     pure = True
     raises_only = (PartialResponseException, RequestRejectedException)
     # the transport state machine (C04, C08, C09) relies on it: an exception of any other kind escapes the callback
-    raises_only_name = "C01_C02_C04_C08_raises_only"
+    raises_only_name = "C01_C02_C04_C08_C09_raises_only"
     cover = ("True", "False", "PartialResponseException", "RequestRejectedException")
 
     def requires(data, cmd, offset, value):
@@ -193,7 +193,7 @@ class ValidateTcp:
     pure = True
     raises_only = (PartialResponseException, RequestRejectedException)
     # the transport state machine (C04, C08, C09) relies on it: an exception of any other kind escapes the callback
-    raises_only_name = "C01_C02_C04_C08_raises_only"
+    raises_only_name = "C01_C02_C04_C08_C09_raises_only"
     cover = ("True", "False", "PartialResponseException", "RequestRejectedException")
 
     def requires(data, cmd, offset, value):
